@@ -1260,3 +1260,18 @@ mut('C01', 'seed-octopus-arm-uses-first', INTEG,
 mut('C01', 'queue-octopus-arm-without-qint', QUEUE,
     "                robust_merge(qbranch, wbranch, qint)",
     "                robust_merge(qbranch, wbranch, to_push[-1])")
+mut('C14', 'seed-body-overrides-url-params', JOB,
+    "    def __init__(self, args=None, kwargs=None, **kwargs_):\n        super().__init__(**kwargs_)\n        self.args = args or []\n        self.kwargs = kwargs or {}\n        # append all kwargs to settings for future job reference\n        self.settings.update(self.kwargs)",
+    "    def __init__(self, args=None, kwargs=None, settings=None, **kwargs_):\n        self.args = args or []\n        self.kwargs = kwargs or {}\n        settings = dict(self.kwargs, **(settings or {}))\n        super().__init__(settings=settings, **kwargs_)")
+mut('C14', 'url-params-setdefault', JOB,
+    "        self.settings.update(self.kwargs)",
+    "        for k_, v_ in self.kwargs.items():\n            self.settings.setdefault(k_, v_)")
+mut('C09', 'seed-latest-minor-forgets-tags', BRANCHES,
+    "            minors.append(major_branch.latest_minor)\n\n            major_branch.latest_minor = max(minors)",
+    "            if minors:\n                major_branch.latest_minor = max(minors)")
+mut('C09', 'seed-hfrev-last-tag-wins', BRANCHES,
+    "                hf_branch.hfrev = max(hfrev + 1, hf_branch.hfrev)",
+    "                hf_branch.hfrev = hfrev + 1")
+mut('C09', 'micro-last-tag-wins', BRANCHES,
+    "            dev_branch.micro = max(micro, dev_branch.micro)",
+    "            dev_branch.micro = micro")
